@@ -85,6 +85,12 @@ CLAIMED.update({
         "finite values, values within rounding distance} for D<=2 (sampled D=3), dimension mismatches, equivalent spellings; BADS(...) verdict and normalised problem vs the model (exact), and vs Val.specValid, the property's own sentence "
         "(failing-input detector); zero target calls at construction; Fl.rn validated against Python floats.",
    design="5 / C08", technique="Lean 4 theorems over a bit-exact validation model + (near-)exhaustive differential"),
+ "C11": dict(
+   text="Exact-arithmetic theorems (Props/C11.lean) for an arbitrary scale pair (phi, psi) with phi strictly increasing on its domain and psi its inverse (identity instance proved; log/exp on the positives is the intended reading): "
+        "roundtrip (inverse(call x) = x inside the hard bounds), call_mono, call_strictMono_inside, inverse_mono, call_plb_pub (-1/+1), call_range / inverse_range (outputs never leave the box for ANY input and ANY inner map), "
+        "applyLog_iff (decision rule, with binary64 rounding of pub/plb), affine_otherwise. Correspondence: real VariableTransformer on random valid bound sets (1e-12..1e12, infinite, mixed, decade-edge) vs Tr.* - flags exact through Fl.rn, "
+        "affine part and clamps by the model, numpy log/exp harness-side; the property's clauses are evaluated on the implementation's own outputs. The floating-point round-trip bound (1e-9 of the width) is measured, not proved.",
+   design="5 / C11", technique="Lean 4 theorems over an abstract strictly-monotone scale + differential with measured float error"),
 })
 
 NA = {
